@@ -6,7 +6,7 @@ package dht
 //  (b) as histories of real operations from an empty table (VerifC34History).
 
 //verif:property C34
-//verif:bound one step (VerifC34Step): bucket 24 with exactly k entries and 0..r replacements: (k,r) = (0..3, 2), (8, 1) and (15..16, 1) in quick; thorough adds (4..14, 1), (15..16, 2), (2, 3), one further entry in bucket 23; the operation is add, stuff (list of 1..2 nodes for k <= 3, one node otherwise), delete, deleteReplace or bump with an arbitrary node: any id (two arbitrary id bytes: equal to an entry, to a replacement, to both, or fresh), hashing into the same bucket, into bucket 23, or the local node itself
+//verif:bound one step (VerifC34Step): bucket 24 with exactly k entries and 0..r replacements: (k,r) = (0..3, 2), (8, 1) and (15..16, 1) in quick; thorough adds (4..14, 1), (2, 3), one further entry in bucket 23; the operation is add, stuff (list of 1..2 nodes for k <= 3, one node otherwise), delete, deleteReplace or bump with an arbitrary node: any id (two arbitrary id bytes: equal to an entry, to a replacement, to both, or fresh), hashing into the same bucket, into bucket 23, or the local node itself
 //verif:bound histories (VerifC34History): empty table, add x16 (bucket full), add of a 17th node, then every sequence of 3 (quick) / 4 (thorough) operations from {add, stuff, delete, deleteReplace} x {17th node, first filler, last filler}
 //verif:assume the node hash (SHA-256 of the id, cached in Node.sha) is an injective function of the id: the harness builds ids whose bytes 0,1 are arbitrary and byte 2 selects the bucket, and sets sha = (0.., id[2], id[0], id[1]); local node id and hash are all-zero; two Node objects with the same id therefore carry the same hash
 //verif:assume pre-state of VerifC34Step: entries have pairwise distinct ids (entry i has id byte 0 = i+1, byte 1 arbitrary), replacements have pairwise distinct ids, both may overlap. Every such state is reachable: add the non-overlapping entries and fillers up to 16, add the replacement nodes (bucket full, so they go to the replacement list), delete the fillers, add the overlapping nodes again (not among the entries, space available: addFront without removal from the replacement list); any entry order is reachable by bumping
@@ -16,7 +16,7 @@ package dht
 //verif:override regexp.MustCompile -> verifC34MustCompile
 //verif:obligation fn=VerifC34Step args=0,2,1;1,2,1;2,2,1;3,2,1 secs=900 validate=10
 //verif:obligation fn=VerifC34Step args=8,1,0;15,1,0;16,1,0 secs=900 validate=10
-//verif:obligation fn=VerifC34Step args=4,1,0;5,1,0;6,1,0;7,1,0;8,1,0;9,1,0;10,1,0;11,1,0;12,1,0;13,1,0;14,1,0;15,2,0;16,2,0;2,3,1 tier=thorough secs=3000 paths=4000000
+//verif:obligation fn=VerifC34Step args=4,1,0;5,1,0;6,1,0;7,1,0;8,1,0;9,1,0;10,1,0;11,1,0;12,1,0;13,1,0;14,1,0;2,3,1 tier=thorough secs=3000 paths=4000000
 //verif:obligation fn=VerifC34History args=3 loops=400000 validate=10
 //verif:obligation fn=VerifC34History args=4 tier=thorough loops=400000 secs=3000 paths=2000000
 
